@@ -146,7 +146,7 @@ def worker(args):
                                 writes_without_call=a2.writes(), writes_after_failed_call=b2.writes()),
                       'after %r the call %r raised %s but the session differs from the state before the call in: %s'
                       % (small[:-1], small[-1], exc, ', '.join(d2)))
-    ex.run(2, visit, order=sx.seeded_order(seed), last_only=(lambda op: op[0] in WATCH) if tier != 'quick' else None)
+    ex.run(2, visit, order=sx.seeded_order(seed), last_only=None)   # (one more operation in the thorough tier: see DESIGN.md section 11.2; the thorough tier is the larger catalogue)
     env.close()
     for s in ex.samples: sub.sample(s)
     return dict(sub=sub.dump(), states=ex.states, transitions=ex.transitions, executions=ex.executions)
